@@ -37,6 +37,9 @@ structure SpecWorld where
   cb : Option Bool := none
   /-- `some k`: the second marker line of section `k` (0-based) was overwritten (C18) -/
   damaged : Option Nat := none
+  /-- `some j`: the 16-bit delta of data line `j` (0-based entry number; not the first line of its section,
+  the next line lies in the same section) was overwritten with the lone-marker pattern `FF FF` (C18) -/
+  damagedLine : Option Nat := none
   /-- false once the source was cut while caches existed: a cache may then keep one
   deviating bucket for good (C09), so cache bytes are no longer prescribed exactly -/
   cachesExact : Bool := true
@@ -85,11 +88,51 @@ def slackLines (p : Nat) (s e : Bound) (log : List Entry) : Nat :=
     (secs.filter fun sc => decide (a.ts ≤ sc.1) && decide (sc.1 ≤ b.ts) || inRange sc.1).length * secLines p
   | _, _ => 0
 
+/-- (byte offset of the line in the data region, is it the first line of its section) for every entry,
+following the canonical encoder's section rule -/
+def lineOffsetsFrom (p : Nat) : Option Nat → Nat → List Entry → List (Nat × Bool)
+  | _, _, [] => []
+  | none, off, e :: es => (off + secSize p, true) :: lineOffsetsFrom p (some e.ts) (off + secSize p + lineSize p) es
+  | some f, off, e :: es =>
+    if e.ts - f ≤ maxDelta then (off, false) :: lineOffsetsFrom p (some f) (off + lineSize p) es
+    else (off + secSize p, true) :: lineOffsetsFrom p (some e.ts) (off + secSize p + lineSize p) es
+
 def step (w : SpecWorld) (op : Op) : SpecWorld × String :=
   -- any op that touches a file behind the library's back ends the state the last session left
   let w := match op with
     | .cut .. | .rm .. | .put .. | .damage .. => { w with settled := false }
     | _ => w
+  if w.damagedLine.isSome && !w.tainted then
+    -- C18: the delta of one data line reads `FF FF` (a lone marker line).  A read that SPANS it - the genuine
+    -- lines directly before and after it, both in its section, are in range - meets the damage
+    match op, w.damagedLine with
+    | .readAll s e, some j =>
+      if !w.isOpen then (w, "~none") else
+      let sel := filterBounds (toBound s) (toBound e) w.log
+      match w.log[j - 1]?, w.log[j + 1]? with
+      | some a, some b =>
+        if j ≥ 1 && sel.contains a && sel.contains b then
+          if w.cb == some true then
+            -- nothing fabricated; everything from the next section on (if the range reaches it) is there
+            let offs := lineOffsetsFrom w.p none 0 w.log
+            let nextSec := ((offs.drop (j + 1)).findIdx? (·.2)).map (· + j + 1)
+            let from_ := match nextSec.bind (fun i => w.log[i]?) with
+              | some first => (sel.takeWhile (fun (x : Entry) => decide (x.ts < first.ts))).length
+              | none => sel.length
+            (w, s!"~sub from={from_} " ++ fmtEntries sel)
+          else (w, "~err CorruptMetaSection")
+        else (w, "~none")
+      | _, _ => (w, "~none")
+    | .close, _ => ({ w with isOpen := false }, "~none")
+    | .open _ _ caches cb _, _ => ({ w with isOpen := true, caches := caches, cb := cb }, "~none")
+    | .restore k, _ =>
+      match w.snaps.find? (·.1 == k) with
+      | some (_, c, p, h, l, t, ce) => ({ w with created := c, p := p, hdr := h, log := l, tainted := t, cachesExact := ce, damaged := none, damagedLine := none, isOpen := false, settled := false, tears := ((w.snapTears.find? (·.1 == k)).map (·.2)).getD [] }, "~none")
+      | none => (w, "~none")
+    | .push .., _ | .pushrun .., _ | .cut .., _ | .rm .., _ | .put .., _ | .damage .., _ | .new .., _ =>
+      ({ w with tainted := true }, "~none")
+    | _, _ => (w, "~none")
+  else
   if w.damaged.isSome && !w.tainted then
     -- C18: one damaged section; only full reads have an expectation
     match op, w.damaged with
@@ -107,7 +150,7 @@ def step (w : SpecWorld) (op : Op) : SpecWorld × String :=
     | .open _ _ caches cb _, _ => ({ w with isOpen := true, caches := caches, cb := cb }, "~none")
     | .restore k, _ =>
       match w.snaps.find? (·.1 == k) with
-      | some (_, c, p, h, l, t, ce) => ({ w with created := c, p := p, hdr := h, log := l, tainted := t, cachesExact := ce, damaged := none, isOpen := false, settled := false, tears := ((w.snapTears.find? (·.1 == k)).map (·.2)).getD [] }, "~none")
+      | some (_, c, p, h, l, t, ce) => ({ w with created := c, p := p, hdr := h, log := l, tainted := t, cachesExact := ce, damaged := none, damagedLine := none, isOpen := false, settled := false, tears := ((w.snapTears.find? (·.1 == k)).map (·.2)).getD [] }, "~none")
       | none => (w, "~none")
     | _, _ => (w, "~none")
   else
@@ -115,7 +158,7 @@ def step (w : SpecWorld) (op : Op) : SpecWorld × String :=
     match op with
     | .restore k =>
       match w.snaps.find? (·.1 == k) with
-      | some (_, c, p, h, l, t, ce) => ({ w with created := c, p := p, hdr := h, log := l, tainted := t, cachesExact := ce, damaged := none, isOpen := false, settled := false, tears := ((w.snapTears.find? (·.1 == k)).map (·.2)).getD [] }, "~none")
+      | some (_, c, p, h, l, t, ce) => ({ w with created := c, p := p, hdr := h, log := l, tainted := t, cachesExact := ce, damaged := none, damagedLine := none, isOpen := false, settled := false, tears := ((w.snapTears.find? (·.1 == k)).map (·.2)).getD [] }, "~none")
       | none => (w, "~none")
     | .close => ({ w with isOpen := false }, "~none")
     | .open .. => ({ w with isOpen := true }, "~none")
@@ -258,7 +301,17 @@ def step (w : SpecWorld) (op : Op) : SpecWorld × String :=
         -- a full read starts after the first section and never meets it: no expectation for k = 0
         if b.length = 2 && !(isMarker b) && k < secs.length && k > 0 then ({ w with damaged := some k }, "~none")
         else ({ w with tainted := true }, "~none")
-      | none => ({ w with tainted := true }, "~none")
+      | none =>
+        -- the other damage C18 speaks about: the delta field of a data line becomes `FF FF`
+        let offs := lineOffsetsFrom w.p none 0 w.log
+        match offs.findIdx? (fun (o : Nat × Bool) => hdrLen w + o.1 == off) with
+        | some j =>
+          let inner := match offs[j]?, offs[j + 1]? with
+            | some (_, false), some (_, false) => true
+            | _, _ => false
+          if b == [255, 255] && inner && !w.isOpen then ({ w with damagedLine := some j }, "~none")
+          else ({ w with tainted := true }, "~none")
+        | none => ({ w with tainted := true }, "~none")
     | _ => ({ w with tainted := true }, "~none")
   | .get r =>
     -- C09, bucket for bucket: a cache left by a session is the cache of one uninterrupted session, except -
